@@ -10,6 +10,7 @@ from hypothesis import strategies as st
 from han import autodecoder, dlde
 from vlib import gen_p1 as G
 from vlib.names import NAME_OF, name_of
+from vlib.pool import PRELUDES, run_prelude
 from vlib.runner import Check, HypClause, Info, fail, guarded
 
 logging.disable(logging.CRITICAL)
@@ -99,7 +100,7 @@ def block_st(draw):
         if draw(st.integers(0, 5)) == 0:
             text += eol
     ident = draw(G.ident_st())
-    return (sets, text, ident, draw(st.sampled_from(["upper", "lower", "none"])))
+    return (sets, text, ident, draw(st.sampled_from(["upper", "lower", "none"])), draw(st.sampled_from(PRELUDES)))
 
 
 def expected_value(cde, v, u, extra):
@@ -118,8 +119,9 @@ def expected_value(cde, v, u, extra):
 
 
 def oracle(case) -> Info:
-    sets, text, ident, checksum = case
+    sets, text, ident, checksum = case[:4]
     ident = tuple(ident)
+    run_prelude(case[4] if len(case) > 4 else "none")
     block = text.encode("ascii")
     # ---- parsing
     parsed = guarded(dlde.parse_p1_readout_content, block, what="parse_p1_readout_content")
